@@ -276,3 +276,43 @@ CONTRACTS += [
     ),
 ]
 MUTANTS.append(("libpass as_str drops undecodable bytes", UB, 'return value.decode("utf8") if isinstance(value, bytes) else value', 'return value.decode("utf8", errors="ignore") if isinstance(value, bytes) else value', "refute", "as_str"))
+
+
+# ---- a PBKDF2 record is accepted only under its exact digest name -------------------------------------------------------------
+IP = "libpass/inspect/pbkdf2.py"
+
+
+def _ip_setup(it, args):
+    dn = z3.String("digest_name field")
+    groups = {"digest_name": SStr(dn, "str"), "rounds": SStr(z3.String("rounds field"), "str"), "salt": SStr(z3.String("salt field"), "str"), "hash": SStr(z3.String("hash field"), "str")}
+    matched = z3.Bool("regex matches")
+
+    def fullmatch(i, a, k):
+        if i.run.branch(matched):
+            return SObj("match", fields={"group": SStub(lambda i2, a2, k2: groups[i2.resolve(a2[0])], "match.group")})
+        return None
+
+    made = []
+
+    def new(i, a, k):
+        made.append(dict(k))
+        return SObj(i.run.fresh("info"), fresh=True, fields=dict(k))
+
+    cls = args["cls"]
+    cls.fields.update({"REGEX": SObj("REGEX", fields={"fullmatch": SStub(fullmatch, "REGEX.fullmatch")}), "DIGEST_NAME": "pbkdf2-sha256"})
+    it.genv.vars["new.*"] = None
+    it.run.ghost.update({"dn": dn, "matched": matched, "made": made})
+    return None
+
+
+CONTRACTS.append(Contract(
+    "libpass.inspect_pbkdf2_hash", f"{IP}::inspect_pbkdf2_hash",
+    params={"hash": Str(), "cls": Obj(is_class=True)},
+    setup=_ip_setup,
+    globals={"new.*": SStub(lambda it, a, k: SObj(it.run.fresh("info"), fresh=True, fields=dict(k)), "cls(...)")},
+    raises={"ValueError": None},
+    ensures=[("a record is returned only when the digest name field EQUALS the class's name (a shorter name such as 'pbkdf2' is another format), carrying the parsed fields",
+              lambda it, env: z3.Implies(z3.BoolVal(it.resolve(env.lookup("result")) is not None), z3.And(it.run.ghost["matched"], it.run.ghost["dn"] == z3.StringVal("pbkdf2-sha256"))))],
+    descr="every string; regular expression abstract (fields arbitrary)",
+))
+MUTANTS.append(("libpass pbkdf2: digest name compared by substring", IP, "    if digest_name != cls.DIGEST_NAME:", "    if digest_name not in cls.DIGEST_NAME:", "refute", "inspect_pbkdf2_hash"))
